@@ -33,6 +33,10 @@ def seeds_table():
     p = os.path.join(VERIF, "seeded", "detection.json")
     if os.path.isfile(p):
         det = json.load(open(p))
+    sweep = {}
+    p = os.path.join(VERIF, "seeded", "sweep.json")
+    if os.path.isfile(p):
+        sweep = json.load(open(p))
     rows = ["| seed | property | what was changed (by an independent sub-agent) | needs, to manifest | reported by (rule &#124; construct) |", "|---|---|---|---|---|"]
     for d in sorted(glob.glob(os.path.join(VERIF, "seeded", "C*"))):
         sid = os.path.basename(d)
@@ -40,10 +44,14 @@ def seeds_table():
         if not os.path.isfile(mp):
             continue
         m = json.load(open(mp))
-        r = det.get(sid, {})
+        r = sweep.get(sid) or det.get(sid, {})
         rep = r.get("outcome", "not run")
+        if "exit" in r:
+            rep = {0: "MISSED", 1: "detected", 2: "exit 2"}.get(r["exit"], f"exit {r['exit']}")
         if r.get("rules"):
             rep = "; ".join(r["rules"][:2])
+        if r.get("outside_statement"):
+            rep = "not claimed - outside the property's statement: " + r["outside_statement"][:170]
         rows.append(f"| {sid} | {m.get('property')} | {esc(m.get('summary', ''))[:260]} | {esc(m.get('needs', ''))[:200]} | {esc(rep)[:260]} |")
     return "\n".join(rows)
 
